@@ -90,3 +90,82 @@ Proof.
   - pose proof (d_imm_lt st _ Hd trig g Hgen) as [H _]. lia.
   - congruence.
 Qed.
+
+(* ------------------------------------------------------------------ exit + open on the same directory *)
+Lemma quiescent_idle st t : quiescent st = true -> getpc st t = Idle.
+Proof.
+  unfold quiescent. intros H. repeat (apply andb_prop in H; destruct H as [H ?]).
+  unfold getpc. destruct (PositiveMap.find t (k_pcs st)) as [p|] eqn:E; [|reflexivity].
+  apply PositiveMap.elements_correct in E. rewrite forallb_forall in H. specialize (H (t, p) E). cbn in H.
+  destruct p; try discriminate. reflexivity.
+Qed.
+
+Theorem reopen_rel st sp fid fsz s0 m0 t0 st' : Rel st sp -> reopen st fid fsz s0 m0 t0 = Some st' -> Rel st' (sreopen sp).
+Proof.
+  intros [Hsk Hd Hthr] H. unfold reopen in H.
+  destruct (quiescent st) eqn:Q; [|discriminate]. cbn [andb] in H.
+  destruct (m0 <? s0) eqn:Hms; [|discriminate]. destruct (k_vis st <=? m0) eqn:Hv; [|discriminate]. cbn [andb] in H.
+  destruct (forallb (fun e => ets e <=? m0) (mt_ents (mem_at st (k_cur st)))) eqn:F1; [|discriminate].
+  destruct (forallb (fun e => ets e <=? m0) (file_entries (k_tree st))) eqn:F2; [|discriminate].
+  cbn [andb] in H. inversion H; subst st'. clear H.
+  apply N.ltb_lt in Hms. apply N.leb_le in Hv. rewrite forallb_forall in F1, F2.
+  pose proof Q as Q0. unfold quiescent in Q0. repeat (apply andb_prop in Q0; destruct Q0 as [Q0 ?]).
+  assert (Hfl : k_fl st = FIdle) by (destruct (k_fl st); try discriminate; reflexivity).
+  assert (Himm : k_imm st = None) by (destruct (k_imm st); try discriminate; reflexivity).
+  assert (Hgen : f_gen (k_fl st) = None) by (rewrite Hfl; reflexivity).
+  set (d := s_db sp) in *. fold (ents st (k_cur st)) in *.
+  set (m := ents st (k_cur st)) in *.
+  (* every memtable entry is committed: nobody is in flight *)
+  assert (Hcom : forall e, In e m -> in_db d e).
+  { intros e He. destruct (d_ents st d Hd _ e He) as [X|(t & b & n & j & Hw & _)]; [exact X|].
+    rewrite (quiescent_idle st t Q) in Hw. discriminate. }
+  assert (I : Inv (mkS m (k_tree st) s0)).
+  { apply build_inv.
+    - apply (d_tree_wf st d Hd).
+    - apply (d_tree_ord st d Hd).
+    - intros k. eapply mt_desc; eauto.
+    - intros e e' He He'. pose proof (d_cur_lo st d Hd e He). pose proof (d_tree_hi st d Hd e' He') as X.
+      rewrite Hgen in X. lia.
+    - intros e He. specialize (F1 e He). apply N.leb_le in F1. lia.
+    - intros e He. specialize (F2 e He). apply N.leb_le in F2. lia. }
+  pose proof (d_tree_ne st d Hd) as Hne.
+  destruct (flush_inv _ fid fsz I Hne) as [I2 Hne2].
+  set (tree' := ver (flush (mkS m (k_tree st) 0) fid fsz)).
+  assert (Etree : tree' = ver (flush (mkS m (k_tree st) s0) fid fsz)) by apply ver_flush_seq.
+  assert (Hin : forall e, In e (file_entries tree') <-> In e m \/ In e (file_entries (k_tree st))).
+  { intros e. rewrite Etree. now apply flush_entries. }
+  set (st' := mkSt None s0 s0 t0 m0 0 None [empty_mt] tree' 0 [] (PositiveMap.empty pc) FIdle).
+  assert (Gp : forall t, getpc st' t = Idle) by (intros t; unfold getpc, st'; cbn [k_pcs]; now rewrite PositiveMap.gempty).
+  assert (Ge : forall g, ents st' g = []) by (intros g; unfold ents, mem_at, st'; cbn [k_mems]; destruct g as [|[|g]]; reflexivity).
+  constructor.
+  - (* skeleton: as for a fresh store *)
+    constructor; try (intros t; rewrite Gp; cbn; intros; discriminate);
+      try (intros t t'; rewrite !Gp; cbn; intros; discriminate); cbn; try discriminate; try lia; try tauto.
+  - unfold sreopen. cbn [s_db]. fold d. constructor.
+    + intros t b. rewrite Gp. discriminate.
+    + cbn. lia.
+    + reflexivity.
+    + cbn. intros; discriminate.
+    + intros t s. rewrite Gp. discriminate.
+    + intros t b s g n. rewrite Gp. discriminate.
+    + intros g e. rewrite Ge. intros [].
+    + intros g. rewrite Ge. exact Logic.I.
+    + intros g. rewrite Ge. constructor.
+    + intros g e e'. rewrite Ge. intros [].
+    + apply (d_db_asc st d Hd).
+    + intros s b Hb. pose proof (d_db_vis st d Hd s b Hb) as [X Y]. split; [cbn; lia|exact Y].
+    + intros s b kv Hb Hkv. right. right. cbn [k_tree st']. apply Hin.
+      destruct (d_present st d Hd s b kv Hb Hkv) as [X|[(g & Hg & _)|X]]; [now left|congruence|now right].
+    + intros e. rewrite Ge. intros [].
+    + cbn. intros; discriminate.
+    + intros e He. cbn [k_tree st'] in He. apply Hin in He. destruct He as [He|He]; [now apply Hcom|now apply (d_tree_db st d Hd)].
+    + intros e He. cbn [k_tree st'] in He. cbn. apply Hin in He.
+      destruct He as [He|He]; [specialize (F1 e He)|specialize (F2 e He)]; now apply N.leb_le.
+    + cbn. intros; discriminate.
+    + cbn [k_tree st']. rewrite Etree. exact (inv_wf _ I2).
+    + cbn [k_tree st']. rewrite Etree. intros k. pose proof (inv_ord _ I2 k) as X. unfold kview in *.
+      assert (Hm : mem (flush (mkS m (k_tree st) s0) fid fsz) = []) by (unfold flush; cbn [mem]; destruct m; reflexivity).
+      rewrite Hm in X. exact X.
+    + cbn [k_tree st']. rewrite Etree. exact Hne2.
+  - intros t. unfold trel. rewrite Gp. unfold sget, sreopen. cbn. now rewrite PositiveMap.gempty.
+Qed.
